@@ -75,7 +75,7 @@ def C01.exCfg : Cfg := { steps := [{ name := 1, accepted := [5], numWorkers := 2
 def C01.exEv (u : Nat) : Ev := { ty := 5, kind := .plain, uid := u }
 example : C01.exCfg.WF := by simp [Cfg.WF, Cfg.names, C01.exCfg]
 example :
-    let st := C01.reach C01.exCfg (fun _ _ _ _ => none) initState 0
+    let st := C01.reach C01.exCfg (fun _ _ _ _ => .stop) initState 0
       [(.addEvent { ev := C01.exEv 1 } none, 0), (.addEvent { ev := C01.exEv 2 } none, 0),
        (.addEvent { ev := C01.exEv 3 } none, 0)]
     ((st.workers 1).inProg.map (·.wid), (st.workers 1).queue.length) = ([0, 1], 1) := by decide
